@@ -126,7 +126,8 @@ def AF.unpack (t : AF) (buffer : Bytes) : AF × R Unit :=
       match (if tpF then structUnpackFrom AF_unpack_fmt2 buffer o3 else .ok [0]) with
       | .error e => (s1, .error e)
       | .ok [tl] =>
-        let s2 := if tpF then { s1 with private_data := slice buffer (o3 + 1) (o3 + 1 + tl) } else s1
+        -- (private_data was reset to bytes() above, so "assign when the flag is set" is this conditional value)
+        let s2 := { s1 with private_data := if tpF then slice buffer (o3 + 1) (o3 + 1 + tl) else [] }
         let o4 := if tpF then o3 + 1 + tl else o3
         -- extension: a failure inside is logged and swallowed, the fresh/partial extension object stays
         if extF then
